@@ -497,6 +497,9 @@ type c02Pool struct {
 	mu      sync.Mutex
 	idle    []*c02Proc
 	started int
+	// confirmed counts confirmed worker deaths (crash, stack overflow, timeout, …)
+	confirmed int
+	skipped   int
 }
 
 func (pl *c02Pool) get() *c02Proc {
@@ -549,6 +552,16 @@ func (pl *c02Pool) Ask(rq *c02Req) c02Outcome {
 		pl.put(p)
 		return o
 	}
+	// Confirmation is expensive (tens of CPU seconds for a runaway recursion). Once a handful
+	// of failures is confirmed the verdict of the run is settled: further dead workers are not
+	// confirmed (and not reported), only counted.
+	pl.mu.Lock()
+	settled := pl.confirmed >= 8
+	pl.mu.Unlock()
+	if settled {
+		o.Kind = "skipped:" + o.Kind
+		return o
+	}
 	// p is dead: confirm alone, in a fresh process, with twice the CPU budget and (for a stack
 	// overflow) Go's default 1 GB stack limit
 	pl.mu.Lock()
@@ -568,6 +581,11 @@ func (pl *c02Pool) Ask(rq *c02Req) c02Outcome {
 		return o
 	}
 	o2 := p2.ask(&rq2, 2*pl.wall)
+	if o2.Kind != "" {
+		pl.mu.Lock()
+		pl.confirmed++
+		pl.mu.Unlock()
+	}
 	if o2.Kind == "" {
 		p2.kill()
 		o2.Kind = "unconfirmed:" + o.Kind
